@@ -1,6 +1,7 @@
 package main
 
 import (
+	"fmt"
 	"go/types"
 	"strings"
 
@@ -210,4 +211,83 @@ func genPipelineOrder(w *World, res *CheckResult) {
 	} else {
 		o.Output = strings.Join(bad, "; ")
 	}
+}
+
+// genConstRange: (*constRange).Exit on  a..b  with integer literals a, b.
+func genConstRange(w *World, res *CheckResult) {
+	fn := w.Func("optimizer.constRange.Exit")
+	ct := w.Contracts["optimizer.constRange.Exit"]
+	if fn == nil || ct == nil {
+		res.Obls = append(res.Obls, missingObl("optimizer.constRange.Exit/exists", "function or contract missing"))
+		return
+	}
+	res.Functions = append(res.Functions, "optimizer.constRange.Exit")
+	lay := astLayout{w}
+	e := NewExec(w)
+	e.SafeMode = func(f *ssa.Function) string { return "panics" }
+	st := NewState()
+	e.paramMode = true
+	rv := e.havocValue(st, fn.Params[0].Type(), "r")
+	slot := e.havocValue(st, fn.Params[1].Type(), "node")
+	e.paramMode = false
+	st.Assume(Not(Eq(slot.One(), NilLoc)))
+	bn, fa, ta := FreshPre(st, "bin"), FreshPre(st, "from"), FreshPre(st, "to")
+	objs := []*Term{bn, fa, ta, slot.One()}
+	for i := range objs {
+		for j := i + 1; j < len(objs); j++ {
+			AssumeDistinctObjs(st, objs[i], objs[j])
+		}
+	}
+	a, b := Fresh("a", SBV(64)), Fresh("b", SBV(64))
+	// literals are non-negative in the source; unary minus is folded first, so small negative values occur too
+	for _, x := range []*Term{a, b} {
+		st.Assume(BVCmp("bvsge", x, BV64(-(1 << 62))))
+		st.Assume(BVCmp("bvsle", x, BV64(1<<62)))
+	}
+	old := lay.ptrVal("BinaryNode", bn)
+	st.Store(slot.One(), old)
+	st.Store(LocField(bn, lay.off("BinaryNode", "Operator")), StrLit(".."))
+	st.Store(LocField(bn, lay.off("BinaryNode", "Left")), lay.ptrVal("IntegerNode", fa))
+	st.Store(LocField(bn, lay.off("BinaryNode", "Right")), lay.ptrVal("IntegerNode", ta))
+	st.Store(LocField(fa, lay.off("IntegerNode", "Value")), a)
+	st.Store(LocField(ta, lay.off("IntegerNode", "Value")), b)
+	size := BVBin("bvadd", BVBin("bvsub", b, a), BV64(1))
+	name := "optimizer.constRange"
+	constT := types.NewPointer(w.namedType("ast", "ConstantNode"))
+	sliceInt := types.NewSlice(types.Typ[types.Int])
+	rewrites := 0
+	for _, o := range e.Run(fn, []*Value{rv, slot}, st, ct) {
+		if o.Panic != nil {
+			e.AddVC(name+"/post:content", "post", fn.String(), o.St, True, "the rewrite must not fail")
+			continue
+		}
+		s := o.St
+		cur := s.Load(slot.One(), SVal)
+		if s.Simp(Eq(cur, old)) == True {
+			// not rewritten: only because the range is too large to precompute
+			e.AddVC(name+"/post:skips-only-large", "post", fn.String(), s, BVCmp("bvsle", size, BV64(1000000)), "a constant range is left to the run time only when it has more than 1e6 elements")
+			continue
+		}
+		rewrites++
+		cv := s.Load(LocField(VSel("ptr_of", cur), lay.off("ConstantNode", "Value")), SVal)
+		ln := VSel("sl_len", cv)
+		k := BoundVar(fmt.Sprintf("crk%d", freshSeqNext()), SBV(64))
+		want := Ite(BVCmp("bvslt", size, BV64(1)), BV64(0), size)
+		content := Forall([]*Term{k}, Implies(And(BVCmp("bvsge", k, BV64(0)), BVCmp("bvslt", k, ln)),
+			Eq(Select(s.Mem(SBV(64)), LocIndex(VSel("sl_ptr", cv), k)), BVBin("bvadd", a, k))))
+		e.AddVC(name+"/post:content", "post", fn.String(), s, Not(And(dynTypeTest(cur, constT), dynTypeTest(cv, sliceInt), Eq(ln, want), content)),
+			"a..b becomes the constant []int{a, a+1, ..., b} (empty when b < a): what makeRange builds at run time")
+		// the run-time range is charged to the memory budget; a precomputed one is not
+		e.AddVC(name+"/post:budget-transparent", "post", fn.String(), s, Not(BVCmp("bvslt", want, BV64(1000000))),
+			"a range is precomputed only if the unoptimized program could build it within the memory budget (size < 1e6 on an otherwise empty budget)")
+	}
+	if rewrites == 0 {
+		res.Obls = append(res.Obls, missingObl(name+"/cover:rewrites", "no path of constRange.Exit rewrites the node"))
+	}
+	for _, o := range e.obls {
+		if strings.HasPrefix(o.Name, name+"/") || strings.Contains(o.Name, "constRange.Exit/loop:") {
+			res.Obls = append(res.Obls, o)
+		}
+	}
+	res.Assumptions = append(res.Assumptions, e.Notes()...)
 }
